@@ -134,6 +134,14 @@ PROPS = {
         units=[
         unit("c19", ".", MAIN_COMMON + ["main/c19_test.go"], "^TestVerifC19", engines=["vhook"], rewrite=[{"files": ["transport/transport.go"], "opts": ["-sel", "net.Dialer=vhook.Dialer"]}]),
     ], layers={"quick": ["c19-config", "c19-behaviour"], "thorough": ["c19-config", "c19-behaviour"]}),
+    "C15": dict(level="exploration", engine="benum",
+        technique="bounded-exhaustive option x value x source enumeration (option list derived from config/load.go at check time) with DeepEqual between sources; pairwise precedence; malformed environment/properties enumeration",
+        level_text="Every registered option (derived from the tree at check time, ~150) x two well-formed values x six ways of giving it must load to deeply equal configurations; every ordered pair of the four source classes with two different values must resolve to the higher one; every environment block of <=2 entries of 16 (malformed included) and every properties file of <=2 of 12 lines must load or fail without panicking; every accepted glob.cache.size/strategy/matcher combination is built into the real HTTPProxy and serves requests.",
+        level_note="Command-line junk is not enumerated (flag.ExitOnError exits the process by design). Values are well-formed for their kind; ill-formed values only appear in the robustness layer, where only 'no panic' is asserted.",
+        units=[
+        unit("c15-config", "config", ["config/c15_test.go"], "^TestVerifC15"),
+        unit("c15-runnable", ".", MAIN_COMMON + ["main/c19_test.go", "main/c15_test.go"], "^TestVerifC15", engines=["vhook"]),
+    ], layers={"quick": ["c15-sources", "c15-robust", "c15-runnable"], "thorough": ["c15-sources", "c15-robust", "c15-runnable"]}),
 }
 
 def layer_unit(pid, layer):
